@@ -27,7 +27,7 @@ from spyne.server.wsgi import WsgiApplication
 
 from .pipeline import TNS
 from .c01_xml_fidelity import (PRIMS, PRIM_VALUES, outer_values, ARRAY_VALUES, Outer, Inner, Sub, Sub2, _services,
-                               _shared, renamed_values, Renamed, RenamedSub)
+                               _shared, renamed_values, Renamed, RenamedSub, return_forms, prim_values, GENERATED, Amount, Flag)
 
 
 @obligation('C02.msgpack.integer_split', targets=['spyne.protocol.msgpack:MessagePackDocument.integer_to_bytes',
@@ -85,7 +85,7 @@ FAMS = {'json': JsonDocument, 'yaml': YamlDocument, 'msgpack': MessagePackDocume
 
 def _codec(family):
     if family == 'json':
-        return (lambda d: json.dumps(d).encode()), (lambda b: json.loads(b.decode() or 'null')), 'application/json'
+        return (lambda d: json.dumps(d, ensure_ascii=False).encode('utf8')), (lambda b: json.loads(b.decode() or 'null')), 'application/json'
     if family == 'yaml':
         import yaml
         return (lambda d: yaml.safe_dump(d, allow_unicode=True).encode('utf8')), (lambda b: yaml.safe_load(b.decode('utf8'))), 'text/yaml'
@@ -99,7 +99,7 @@ def _full(o):
     return Outer(n=1, inner=Inner(x=1, s='a', t='tt'), sub=Sub(x=9, s='s', t='u', extra=3), sub2=Sub2(fb=1, fs='f', own=2),
                  items=[Inner(x=1, s='a', t='b'), Inner(x=2, s='c', t='d')], tags=['p', 'q'],
                  when=dt.datetime(2020, 1, 1, 0, 0, 0, 5, PRIM_VALUES[2]['t'].tzinfo), amount=decimal.Decimal('1.50'), code=7,
-                 must=5)
+                 must=5, amount2=Amount(value=decimal.Decimal('0'), unit='kg', ratio=decimal.Decimal('1.5'), since=dt.date(2020, 1, 2)), flag=Flag(on=False, count=0), word=u'Gr\xf6\xdfe', digits=u'42', small=5)
 
 
 def _mk_roundtrip(family, wrappers, as_list, validator):
@@ -110,9 +110,11 @@ def _mk_roundtrip(family, wrappers, as_list, validator):
                                                      'spyne.protocol.dictdoc.hier:HierDictDocument.serialize',
                                                      'spyne.protocol.dictdoc.hier:HierDictDocument._doc_to_object',
                                                      'spyne.protocol.dictdoc.hier:HierDictDocument._object_to_doc'],
-                bounded="3 signatures (10 primitives x 5 boundary value vectors incl. 2**70 and -2**63, 30-digit decimals, "
-                        "non-BMP text, empty containers; nested/inherited complex type; wrapped, repeated and complex "
-                        "arrays); MessagePack with str and bytes keys; positional form for fully populated objects",
+                bounded="7 signatures (10 primitives x 6 boundary value vectors incl. 2**70 and -2**63, 30-digit decimals, "
+                        "non-BMP text, empty containers, a 27 kB text of 3-byte characters spanning four transport blocks; "
+                        "nested/inherited complex type; wrapped, repeated and complex arrays; values built by the function; "
+                        "renamed members; a derived complex return value given as instance / sequence / dict); MessagePack "
+                        "with str and bytes keys; positional form for fully populated objects",
                 desc="a request built by the independent reference encoder invokes the user function exactly once with "
                      "equal values; the response read by the independent reference decoder denotes exactly the values "
                      "returned")
@@ -124,18 +126,20 @@ def _mk_roundtrip(family, wrappers, as_list, validator):
         wsgi = WsgiApplication(app)
         cfg = dict(wrappers=wrappers, as_list=as_list, family=family)
         packb, unpackb, ctype = _codec(family)
-        meth = c.choose(['prims', 'struct', 'arrays', 'shared', 'produce', 'renamed'], 'method')
+        meth = c.choose(['prims', 'struct', 'arrays', 'shared', 'produce', 'renamed', 'forms'], 'method')
         d = app.interface.service_method_map['{%s}%s' % (TNS, meth)][0]
         if meth == 'shared':
             args = []
         elif meth == 'produce':
             args = [c.choose(list(range(len(PRIM_VALUES))), 'values')]
+        elif meth == 'forms':
+            args = [c.choose(list(range(len(return_forms()))), 'values')]
         elif meth == 'renamed':
             args = [RenamedSub(plain=3, alias='b', far=4, many=['p', 'q'], m1=5, m2='mm', own=6,
                                nested=Renamed(plain=1, alias='a', far=2, many=['x'])) if as_list
                     else renamed_values()[c.choose([0, 1, 2, 3], 'values')]]
         elif meth == 'prims':
-            vals = PRIM_VALUES[c.choose(list(range(len(PRIM_VALUES))), 'values')]
+            vals = prim_values(c, c.choose(list(range(len(PRIM_VALUES) + (GENERATED if c.thorough else 0))), 'values'))
             args = [vals[k] for k, _ in PRIMS]
         elif meth == 'struct':
             args = [_full(None)] if as_list else [outer_values()[c.choose([0, 1, 2, 3, 4], 'values')]]
@@ -194,6 +198,8 @@ def _mk_roundtrip(family, wrappers, as_list, validator):
             rets = [o, [o.inner] * 3]
         if meth == 'produce':
             rets = [PRIM_VALUES[args[0]][k] for k, _ in PRIMS]
+        if meth == 'forms':
+            rets = [return_forms()[args[0]][1]]
         for i, ((k, t), ret) in enumerate(zip(out_ti, rets)):
             if len(out_ti) == 1 and not wrappers:
                 piece = rdoc
